@@ -7,9 +7,9 @@ from ..runner import run_check
 LIBS = ["async_mutex_v1.cpp", "async_mutex_v2.cpp", "atomic_intrusive_list.cpp", "inplace_stop_token.cpp"]
 V1 = ["v1_two", "v1_try", "v1_batch", "v1_three"]
 V2 = ["v2_handoff", "v2_handoff_stop", "v2_leak_seq", "v2_race_inline", "v2_fifo3", "v2_inline_stop",
-      "v2_cancel_first", "v2_race_try", "v2_handoff_try"]
+      "v2_cancel_first", "v2_race_try", "v2_handoff_try", "v2_unlock_race_try"]
 PROPS = ["UnifexModel.Props.C15", "UnifexModel.Props.C15_v2a", "UnifexModel.Props.C15_v2b", "UnifexModel.Props.C15_v2c",
-         "UnifexModel.Props.C15_v2d", "UnifexModel.Props.C15_v2e", "UnifexModel.Props.C15_v2legacy"]
+         "UnifexModel.Props.C15_v2d", "UnifexModel.Props.C15_v2e", "UnifexModel.Props.C15_v2f", "UnifexModel.Props.C15_v2legacy"]
 
 
 LIST_SCENARIOS = ["l_push_pop", "l_pop_remove", "l_push_remove", "l_empty_probe"]
@@ -74,7 +74,7 @@ def run(tier, seed, replay=None):
     ]
     return run_check(
         "C15", tier, seed, PROPS, parts,
-        rule="every schedule (DFS, preemption-bounded, plus random/PCT walks) of 4 scenarios on the real v1::async_mutex and 9 on the real "
+        rule="every schedule (DFS, preemption-bounded, plus random/PCT walks) of 4 scenarios on the real v1::async_mutex and 10 on the real "
              "v2::async_mutex (plain receivers with an inplace_stop_source each and a manual deferred / inline scheduler) under the controlled "
              "scheduler; a case = one distinct observable history; non-trivial = admitted by the Lean model after at least one context switch",
         assumptions=["sequentially consistent atomics (memory orders and the Dekker fences are not distinguished)",
@@ -88,8 +88,8 @@ def run(tier, seed, replay=None):
         trusted_extra=["harness/rt (cooperative scheduler, __tsan_* shim, pthread mutex/condvar interposition)",
                        "Core/Admit.lean trace-inclusion test", "g++ 12 -fsanitize=thread instrumentation"],
         explanation="Theorems: Props/C15 v1_mutual_exclusion, v1_no_lost_waiter, v1_fifo, v1_queue_asserts_hold (parametric, invariant induction) and "
-                    "v1_*_safe instances; Props/C15_v2a..e v2_*_safe: the FULL property safeFull (mutual exclusion, at-most-once, cancelled-never-owns, a granted "
-                    "waiter never gets done, FIFO, no deadlock, every started waiter completes exactly once, lock not leaked) for each of the 9 instances, "
+                    "v1_*_safe instances; Props/C15_v2a..f v2_*_safe: the FULL property safeFull (mutual exclusion, at-most-once, cancelled-never-owns, a granted "
+                    "waiter never gets done, FIFO, no deadlock, every started waiter completes exactly once, lock not leaked) for each of the 10 instances, "
                     "unconditionally, also with stop requests at any time (kernel-evaluated closure). The model's completion_forwarder hop is the code "
                     "as it stands (rescheduling receiver answers get_stop_token with unstoppable_token). Props/C15_v2legacy is LEGACY documentation about a "
                     "hand-transcribed pre-repair forwarder (DESIGN §8 #3) and is not tied to any code. "
